@@ -1,8 +1,10 @@
 package harness
 
 import (
+	"bytes"
 	"crypto/tls"
 	"fmt"
+	"os"
 	"reflect"
 	"strings"
 	"time"
@@ -275,7 +277,7 @@ func c19Table(w *W) {
 // pipes have GetOption only
 type pipeOpt struct{ p mangos.Pipe }
 
-func (p pipeOpt) SetOption(string, interface{}) error       { return mangos.ErrBadProperty }
+func (p pipeOpt) SetOption(string, interface{}) error     { return mangos.ErrBadProperty }
 func (p pipeOpt) GetOption(n string) (interface{}, error) { return p.p.GetOption(n) }
 
 // c19Effects: the clauses that need peers or time.
@@ -606,6 +608,118 @@ func c19Effects(w *W) {
 }
 
 func init() {
-	register(&Scenario{Name: "option-table", Prop: "C19", Horizon: time.Hour, Weight: 1, Run: c19Table})
-	register(&Scenario{Name: "option-effects", Prop: "C19", Horizon: 48 * time.Hour, Weight: 2, Run: c19Effects})
+	register(&Scenario{Name: "option-table", Prop: "C19", Horizon: time.Hour, Weight: 10, Run: c19Table})
+	register(&Scenario{Name: "option-effects", Prop: "C19", Horizon: 48 * time.Hour, Weight: 20, Run: c19Effects})
+}
+
+// c19Real: options on the real OS transports (engine R). "An accepted value
+// is what Get then returns and takes effect": a MaxRecvSize set on a listener
+// (or handed down from the socket) *after* Listen governs the connections
+// accepted from then on; the accepted pipe reports it; a message over the
+// limit is not delivered, one within it is.
+func c19Real(w *W) {
+	tran := []string{"tcp", "ipc", "tls+tcp", "ws"}[w.Choose(simrt.SShape, 4)]
+	via := []string{"listener", "socket"}[w.Choose(simrt.SShape, 2)]
+	when := []string{"before-listen", "after-listen"}[w.Choose(simrt.SShape, 2)]
+	limit := []int{100, 1000}[w.Choose(simrt.SShape, 2)]
+	w.SetShape("tran", tran)
+	w.SetShape("via", via)
+	w.SetShape("when", when)
+	w.SetShape("limit", limit)
+	srv, cli := tlsConfigs()
+	a, b := w.Sock("pull"), w.Sock("push")
+	defer a.Close()
+	defer b.Close()
+	mustSet(w, a, mangos.OptionRecvDeadline, 15*time.Second)
+	url := tran + "://" + loopIP + ":0"
+	var lopts, dopts map[string]interface{}
+	switch tran {
+	case "ipc":
+		p := fmt.Sprintf("%s/verif-c19-%d-%d.sock", os.TempDir(), os.Getpid(), w.RunIdx)
+		os.Remove(p)
+		w.OnCleanup(func() { os.Remove(p) })
+		url = "ipc://" + p
+	case "ws":
+		url += "/sp"
+	case "tls+tcp":
+		lopts = map[string]interface{}{mangos.OptionTLSConfig: srv}
+		dopts = map[string]interface{}{mangos.OptionTLSConfig: cli}
+	}
+	var pipes []mangos.Pipe
+	got := make(chan mangos.Pipe, 4)
+	a.SetPipeEventHook(func(ev mangos.PipeEvent, p mangos.Pipe) {
+		if ev == mangos.PipeEventAttached {
+			got <- p
+		}
+	})
+	l, err := a.NewListener(url, lopts)
+	if err != nil {
+		w.Failf("HARNESS/newlistener", "%v", err)
+		return
+	}
+	set := func() bool {
+		var err error
+		if via == "listener" {
+			err = l.SetOption(mangos.OptionMaxRecvSize, limit)
+		} else {
+			err = a.SetOption(mangos.OptionMaxRecvSize, limit)
+		}
+		if err != nil {
+			w.Failf("C19/value-rejected:MaxRecvSize", "%s: SetOption(MaxRecvSize,%d) on the %s: %v", tran, limit, via, err)
+			return false
+		}
+		return true
+	}
+	if when == "before-listen" && !set() {
+		return
+	}
+	if err := l.Listen(); err != nil {
+		w.Failf("HARNESS/listen", "%v", err)
+		return
+	}
+	if when == "after-listen" && !set() {
+		return
+	}
+	if v, err := l.GetOption(mangos.OptionMaxRecvSize); err != nil || v != limit {
+		w.Failf("C19/get-differs-from-set:listener:MaxRecvSize", "%s listener (%s, set via the %s): GetOption(MaxRecvSize) = (%v, %v) after %d was accepted", tran, when, via, v, err, limit)
+		return
+	}
+	if err := b.DialOptions(l.Address(), dopts); err != nil {
+		w.Failf("HARNESS/dial", "%v", err)
+		return
+	}
+	select {
+	case p := <-got:
+		pipes = append(pipes, p)
+	case <-time.After(30 * time.Second):
+		w.Failf("HARNESS/attach", "no pipe attached")
+		return
+	}
+	if v, err := pipes[0].GetOption(mangos.OptionMaxRecvSize); err == nil && v != limit {
+		w.Failf("C19/option-not-effective:MaxRecvSize", "%s (%s, via the %s): the listener accepted MaxRecvSize %d and reports it, the pipe it accepted afterwards reports %v", tran, when, via, limit, v)
+		return
+	}
+	// within the limit: delivered; over it: never
+	small, big := wireBody(limit, 3), wireBody(limit+100, 4)
+	if err := b.Send(small); err != nil {
+		w.Failf("HARNESS/send", "%v", err)
+		return
+	}
+	m, err := a.Recv()
+	if err != nil || !bytes.Equal(m, small) {
+		w.Failf("C19/option-not-effective:MaxRecvSize", "%s: a %d-byte message (MaxRecvSize %d) was not delivered intact: %v", tran, len(small), limit, err)
+		return
+	}
+	mustSet(w, a, mangos.OptionRecvDeadline, 300*time.Millisecond)
+	_ = b.Send(big)
+	if m, err := a.Recv(); err == nil && len(m) == len(big) {
+		w.Failf("C19/option-not-effective:MaxRecvSize", "%s (%s, via the %s): MaxRecvSize %d was accepted and is reported, yet a %d-byte message was delivered", tran, when, via, limit, len(m))
+		return
+	}
+	w.Delivery++
+	w.Probe("real-transport-option-effective")
+}
+
+func init() {
+	register(&Scenario{Name: "option-effects-real-transports", Prop: "C19", Engine: "R", Weight: 1, Run: c19Real})
 }
